@@ -77,13 +77,14 @@ def main(tier, seed, only=None):
     cfgs = [c for c in configs(tier) if not only or c[0]['name'] in only]
     order = list(range(len(cfgs)))
     random.Random(seed).shuffle(order)
-    res = par.pmap('harness.l3:explore_cfg', [cfgs[i] for i in order])
+    from harness import l3
+    res = l3.explore_split([cfgs[i] for i in order], want=12)
     for i, d in zip(order, res):
         cfg, b, cap = cfgs[i]
         found = d.pop('found')
         st = explore.Stats()
         st.merge(d)
-        rep.stats(cfg['name'], st, delay_bound=b)
+        rep.stats(cfg['name'], st, delay_bound=b, subtrees=d.get('subtrees'))
         for msg, ch, sig, log in found:
             rep.violation(msg + '\nconfig=%s log tail=%r' % (cfg['name'], log[-6:]),
                           dict(harness='l3', config=cfg, choices=ch),
